@@ -40,12 +40,31 @@ def succ_of(t, base=("param", 1, "self")):
     `if p == L - 1 { 0 } else { p + 1 }` in any spelling, written out, in a helper storing through `&mut pos`, or in a free function)"""
     if t[0] == "call" and t[1] == "ring::succ" and is_ring_len(t[2][1], base):
         return t[2][0]
+    # the modular spelling `(p + 1) % L` — the same function for every slot index p < L, which is all a cursor ever holds
+    if t[0] == "op" and t[1] == "Rem" and len(t[2]) == 2 and is_ring_len(t[2][1], base):
+        a = t[2][0]
+        if a[0] == "op" and a[1] == "Add" and len(a[2]) == 2 and const(1) in a[2]:
+            return [y for y in a[2] if y != const(1)][0] if a[2] != (const(1), const(1)) else None
     return None
 
 
 def pred_of(t, base=("param", 1, "self")):
     if t[0] == "call" and t[1] == "ring::pred" and is_ring_len(t[2][1], base):
         return t[2][0]
+    # `(p + L - 1) % L`
+    if t[0] == "op" and t[1] == "Rem" and len(t[2]) == 2 and is_ring_len(t[2][1], base):
+        from ..terms import linear
+        L = t[2][1]
+        atoms, c = linear(t[2][0])
+        if c == -1 and len(atoms) == 2 and repr(L) in atoms and atoms[repr(L)][1] == 1:
+            (other,) = [v for k_, v in atoms.items() if k_ != repr(L)]
+            if other[1] == 1:
+                return other[0]
+    # `p.checked_sub(1).unwrap_or(L - 1)`
+    if t[0] == "call" and t[1].endswith("::unwrap_or") and len(t[2]) == 2 and t[2][0][0] == "call" and t[2][0][1] == "checked":
+        x, d = t[2][0][2][0], t[2][1]
+        if x[0] == "op" and x[1] == "Sub" and len(x[2]) == 2 and x[2][1] == const(1) and d[0] == "op" and d[1] == "Sub" and len(d[2]) == 2 and d[2][1] == const(1) and is_ring_len(d[2][0], base):
+            return x[2][0]
     return None
 
 
@@ -615,6 +634,17 @@ def scan_rules(ctx):
                 continue
             cond = tb.operand(t.discr, b, len(sc.blocks[b].stmts))
             arms = {int(v): bb for v, bb in t.j["arms"]}
+            if cond[0] == "call" and cond[1] == "discriminant" and cond[2][0][0] == "call" and cond[2][0][1].endswith("::cmp"):
+                # `match stored.cmp(&remainder)`: every arm that leaves the loop is the comparison it stands for
+                from ..guards import checked_outcome
+                for o in outs:
+                    vals = [v for v, bb in arms.items() if bb == o]
+                    if not vals:
+                        exits.append((cond, True, b))       # the otherwise arm: left as it is (not a documented stop)
+                    for v in vals:
+                        co = checked_outcome(mk("Eq", cond, const(v)), True)
+                        exits.append((co[0], co[1], b) if co else (cond, True, b))
+                continue
             for o in outs:
                 val = [v for v, bb in arms.items() if bb == o]
                 pol = (val[0] != 0) if val else True      # `otherwise` of a bool switch is the true edge
@@ -718,15 +748,31 @@ def scan_rules(ctx):
         pa = d["present"][1] if d["present"][0] == "phi" else (d["present"],)
         posa = d.get("position", ("x",))
         posa = posa[1] if posa[0] == "phi" else (posa,)
+        # `present` may be a flag set where the match is found: the blocks storing `true` into a bool local
+        flag_blocks = [bi for bi, blk in enumerate(sc.blocks) if not blk.cleanup for st in blk.stmts
+                       if st.k == "assign" and st.place.is_local() and sc.local_ty(st.place.local) == "bool" and sc.local_name(st.place.local)
+                       and st.rv.k == "use" and st.rv.ops[0].k == "const" and st.rv.ops[0].value() in (1, True)]
+        flag_facts = [atomic_facts(sc, prog, bi, tb) for bi in flag_blocks]
+        sor_t = d.get("start_of_run", ("x",))
         for a in pa:
             if a == const(False):
+                continue
+            if a == const(True) and flag_blocks:
+                for fs in flag_facts:
+                    hit = [x[2][1] for c_, tr_ in fs if tr_ and c_[0] == "op" and c_[1] == "Eq" and rem_p in c_[2] for x in c_[2] if is_rem_at_lv(x)]
+                    if not hit:
+                        probs.append("present is set to true where `stored remainder == remainder` is not established")
+                    elif hit[0] not in posa:
+                        probs.append("present is decided at slot %s but position reports %s" % (fmt(hit[0]), fmt(d.get("position"))[:80]))
+                    if sor_t[0] == "call" and sor_t[1] == "bool::then_some" and fv({repr(c_): tr_ for c_, tr_ in fs}, sor_t[2][0]) is not True:
+                        probs.append("a present result whose start_of_run may be None")
                 continue
             slot = [x[2][1] for x in (a[2] if a[0] == "op" and a[1] == "Eq" else ()) if is_rem_at_lv(x)]
             if not (a[0] == "op" and a[1] == "Eq" and rem_p in a[2] and slot):
                 probs.append("present is %s, expected `stored remainder == remainder`" % fmt(a)[:120])
             elif slot[0] not in posa:
                 probs.append("present is decided at slot %s but position reports %s" % (fmt(slot[0]), fmt(d.get("position"))[:80]))
-        if d.get("start_of_run", ("x",))[0] != "adt" or d["start_of_run"][2] != "Some":
+        if not (sor_t[0] == "call" and sor_t[1] == "bool::then_some" and flag_blocks) and (sor_t[0] != "adt" or sor_t[2] != "Some"):
             probs.append("a possibly-present result without a start_of_run")
     elif len(pres) != 1:
         probs.append("%d result records with present: true" % len(pres))
